@@ -53,6 +53,7 @@ class Cfg:
         self.serial, self.log, self.verbose = f["serial"] == "1", f["log"] == "1", f["verbose"] == "1"
         self.defines = f["defines"].split(",")
         self.inj = [int(x) for x in f["inj"].split(",")]
+        self.ptype = f.get("ptype", "none")
 
     def defined(self, sid, m):
         if sid == 255:
